@@ -23,3 +23,6 @@ open Neutrino.Store
 #print axioms Neutrino.Store.C08_trans_trimPartialHeader
 #print axioms Neutrino.Store.C08_trans_trimPartialHeader_err
 #print axioms Neutrino.Store.C08_trans_resetInterruptedInit
+#print axioms Neutrino.Store.C08_single_tx_append_recover
+#print axioms Neutrino.Store.C08_split_append_crash_counterexample
+#print axioms Neutrino.Store.C08_bulk_source_shape
